@@ -184,8 +184,171 @@ pub fn c17(a: &Args) -> Report {
     // ---- histories of invocations against the model file in {absent, fresh, fresh-CRLF, stale}
     histories(&cli, &work, &mut rep, a.tier == vcore::enumerate::Tier::Thorough);
     histories_format(&cli, &work, &mut rep);
+    path_shapes(&cli, &work, &mut rep);
     let _ = std::fs::remove_dir_all(&work);
     rep
+}
+
+/// How the two paths are WRITTEN must not matter: every spelling of the input path x every spelling
+/// of the output path (absolute, bare file name, `./name`, inside a sub-directory, through `..`,
+/// a name with a space, a name without extension) x {plain, --format} x the working directory the
+/// CLI is started in, each with all histories of length <= 3 over {write, --check}. The expectation
+/// is the output obtained through absolute paths (which the other explorations bind to the oracle).
+fn path_shapes(cli: &Path, work: &Path, rep: &mut Report) {
+    let have_rustfmt = std::process::Command::new("rustfmt").arg("--version").output().map(|o| o.status.success()).unwrap_or(false);
+    let root = work.join("ps");
+    let src = "#[derive(Logos, Debug)]\n#[doc = \"first line\nsecond line\"]\n#[logos(skip \" \")]\nenum T {\n    #[token(\"a\")]\n    A,\n    #[regex(\"[0-9]+\")]\n    N,\n}\n";
+    for d in ["", "sub", "sub/deep", "in dir"] {
+        std::fs::create_dir_all(root.join(d)).unwrap();
+    }
+    for f in ["in.rs", "sub/in.rs", "in dir/in put.rs", "noext"] {
+        std::fs::write(root.join(f), src).unwrap();
+    }
+    let abs_in = root.join("in.rs");
+    let plain = run_cli(cli, &[abs_in.to_str().unwrap()]).1;
+    let plain_file = {
+        let p = root.join("probe_plain.rs");
+        run_cli(cli, &[abs_in.to_str().unwrap(), "--output", p.to_str().unwrap()]);
+        std::fs::read_to_string(&p).unwrap_or_default()
+    };
+    let formatted_file = if have_rustfmt {
+        let p = root.join("probe_fmt.rs");
+        run_cli(cli, &[abs_in.to_str().unwrap(), "--output", p.to_str().unwrap(), "--format"]);
+        std::fs::read_to_string(&p).unwrap_or_default()
+    } else {
+        String::new()
+    };
+    if plain_file.is_empty() || plain_file.trim_end() != plain.trim_end() || (have_rustfmt && (formatted_file.is_empty() || formatted_file == plain_file)) {
+        rep.violations.push(Violation { key: "CLI-PATHS/probe".into(), tag: "CLI-CHECK".into(), case: "path shapes: probe".into(), detail: "writing through absolute paths gives no usable expectation".into(), replay: json!({"kind": "c17", "tag": "CLI-CHECK"}) });
+        return;
+    }
+    // (cwd relative to root, spelling of the input, spelling of the output, file the output spelling denotes relative to root)
+    let abs_in_s = abs_in.to_str().unwrap().to_string();
+    let mut cases: Vec<(String, String, String, String)> = vec![];
+    let inputs_at_root: Vec<String> = vec![abs_in_s.clone(), "in.rs".into(), "./in.rs".into(), "sub/in.rs".into(), "sub/../in.rs".into(), "in dir/in put.rs".into(), "noext".into()];
+    let outputs_at_root: Vec<(String, String)> = vec![
+        (root.join("o_abs.rs").to_str().unwrap().to_string(), "o_abs.rs".into()),
+        ("o.rs".into(), "o.rs".into()),
+        ("./o.rs".into(), "o.rs".into()),
+        ("sub/o.rs".into(), "sub/o.rs".into()),
+        ("sub/deep/o.rs".into(), "sub/deep/o.rs".into()),
+        ("sub/../o.rs".into(), "o.rs".into()),
+        ("in dir/o ut.rs".into(), "in dir/o ut.rs".into()),
+        ("o_noext".into(), "o_noext".into()),
+        ("sub/.hidden".into(), "sub/.hidden".into()),
+    ];
+    for i in &inputs_at_root {
+        for (o, f) in &outputs_at_root {
+            cases.push(("".into(), i.clone(), o.clone(), f.clone()));
+        }
+    }
+    // started inside a sub-directory: everything one level up
+    for i in [abs_in_s.as_str(), "in.rs", "../in.rs", "deep/../in.rs"] {
+        for (o, f) in [("o.rs", "sub/o.rs"), ("../o.rs", "o.rs"), ("./deep/o.rs", "sub/deep/o.rs"), ("deep/../../o.rs", "o.rs")] {
+            cases.push(("sub".into(), i.into(), o.into(), f.into()));
+        }
+    }
+    let hists: Vec<Vec<&str>> = {
+        let mut all = vec![];
+        let mut q: VecDeque<Vec<&str>> = VecDeque::new();
+        q.push_back(vec![]);
+        while let Some(h) = q.pop_front() {
+            if h.len() == 3 {
+                continue;
+            }
+            for op in ["write", "check"] {
+                let mut h2 = h.clone();
+                h2.push(op);
+                all.push(h2.clone());
+                q.push_back(h2);
+            }
+        }
+        all
+    };
+    let modes: Vec<bool> = if have_rustfmt { vec![false, true] } else { vec![false] };
+    let mut jobs = vec![];
+    for (ci, c) in cases.iter().enumerate() {
+        for &fmt in &modes {
+            for (hi, h) in hists.iter().enumerate() {
+                jobs.push((ci, c.clone(), fmt, hi, h.clone()));
+            }
+        }
+    }
+    let results: Vec<(String, Option<String>, u64)> = jobs
+        .par_iter()
+        .map(|(ci, (cwd, inp, outp, file), fmt, hi, h)| {
+            // every job works in its own copy of the directory tree, so that jobs do not see each other's files
+            let base = work.join(format!("psj_{ci}_{}_{hi}", *fmt as u8));
+            for d in ["", "sub", "sub/deep", "in dir"] {
+                std::fs::create_dir_all(base.join(d)).unwrap();
+            }
+            for f in ["in.rs", "sub/in.rs", "in dir/in put.rs", "noext"] {
+                std::fs::write(base.join(f), src).unwrap();
+            }
+            let root_s = root.to_str().unwrap();
+            let base_s = base.to_str().unwrap();
+            let inp = inp.replace(root_s, base_s);
+            let outp = outp.replace(root_s, base_s);
+            let target = base.join(file);
+            let want = if *fmt { &formatted_file } else { &plain_file };
+            let label = format!("cwd=<dir>/{cwd} input={} --output {}{} history {h:?}", inp.replace(base_s, "<dir>"), outp.replace(base_s, "<dir>"), if *fmt { " --format" } else { "" });
+            let mut bad = None;
+            let mut calls = 0u64;
+            for (k, step) in h.iter().enumerate() {
+                let before = std::fs::read(&target).ok();
+                let up_to_date = before.as_ref().map_or(false, |b| String::from_utf8_lossy(b).lines().eq(want.lines()));
+                let mut args: Vec<&str> = vec![&inp, "--output", &outp];
+                if *fmt {
+                    args.push("--format");
+                }
+                if *step == "check" {
+                    args.push("--check");
+                }
+                let o = Command::new(cli).args(&args).current_dir(base.join(cwd)).output().expect("run logos-cli");
+                calls += 1;
+                let code = o.status.code().unwrap_or(-1);
+                let after = std::fs::read(&target).ok();
+                if *step == "write" {
+                    let holds = after.as_ref().map_or(false, |b| String::from_utf8_lossy(b).lines().eq(want.lines()));
+                    if code != 0 || !holds {
+                        bad = Some(format!("step {k} write: exit {code} {}; afterwards the file {}", String::from_utf8_lossy(&o.stderr).chars().take(160).collect::<String>(), if after.is_none() { "does not exist" } else { "does not hold the output" }));
+                        break;
+                    }
+                    if up_to_date && after != before {
+                        bad = Some(format!("step {k} write: the file was up to date but was rewritten"));
+                        break;
+                    }
+                } else {
+                    if (code == 0) != up_to_date {
+                        bad = Some(format!("step {k} --check: exit {code} although the file {} the output", if up_to_date { "holds" } else { "does not hold" }));
+                        break;
+                    }
+                    if after != before {
+                        bad = Some(format!("step {k} --check modified the file"));
+                        break;
+                    }
+                }
+            }
+            let _ = std::fs::remove_dir_all(&base);
+            (label, bad, calls)
+        })
+        .collect();
+    let mut n = 0u64;
+    for (label, bad, calls) in results {
+        n += 1;
+        rep.count("transitions", calls);
+        if let Some(m) = bad {
+            if rep.violations.iter().filter(|v| v.key.starts_with("CLI-PATHS/")).count() < 20 {
+                rep.violations.push(Violation { key: format!("CLI-PATHS/{label}"), tag: "CLI-CHECK".into(), case: label, detail: m, replay: json!({"kind": "c17", "tag": "CLI-CHECK"}) });
+            }
+        }
+    }
+    rep.count("path_shape_histories", n);
+    rep.count("histories", n);
+    rep.count("evaluations", n);
+    rep.count("distinct_nontrivial", n);
+    rep.count("traces_validated_against_impl", n);
+    rep.bounds.insert("path shapes".into(), format!("{} (working directory, input spelling, output spelling) combinations x {} modes x all {} histories of length <= 3 over {{write, --check}}", cases.len(), modes.len(), hists.len()));
 }
 
 #[derive(Clone, Copy, PartialEq, Eq, Hash, Debug)]
